@@ -21,6 +21,17 @@ elif which == "C16-nsphere-axis-flat":
             bad.append("minimum_nsphere of an axis-aligned segment does not contain it")
     except Exception as ex:  # noqa: BLE001
         bad.append("minimum_nsphere of points with zero extent along an axis raises %s (division by ptp.min() == 0)" % type(ex).__name__)
+elif which == "C16-hull-rotated-lattice-open":
+    import itertools
+
+    import trimesh.transformations as tf
+
+    g = np.array(list(itertools.product(range(3), repeat=3)), dtype=float)
+    P = g * 0.37 + [100.0, -50.0, 25.0]
+    Q = tf.transform_points(P, tf.rotation_matrix(0.8, [1, 2, 3], [0.1, 0.2, 0.3]))
+    h = trimesh.convex.convex_hull(Q)
+    if not h.is_watertight:
+        bad.append("convex_hull of a rotated 3x3x3 lattice far from the origin is not watertight (%d faces, %d vertices; the cube has 12 and 8): qhull (QbB) keeps nearly-coplanar lattice points as vertices and the zero-area stitching triangles are removed" % (len(h.faces), len(h.vertices)))
 else:
     print("unknown finding", which)
     sys.exit(3)
